@@ -81,7 +81,7 @@ type namer struct {
 var clientParamMethods = setOf("o", "string", "context", "httpclient", "writetorequest", "bindrequest", "httprequest", "withtimeout", "settimeout", "withcontext", "setcontext", "withhttpclient", "sethttpclient", "withdefaults", "setdefaults")
 var modelMethods = setOf("validate", "contextvalidate", "marshalbinary", "unmarshalbinary", "marshaljson", "unmarshaljson")
 var templateImports = setOf("err", "res", "ok", "raw", "rr", "route", "fds", "qs", "qr", "qv", "hdr", "tpe", "file", "header", "http", "params", "runtime", "swag", "errors", "strfmt", "middleware", "security", "spec", "loads", "validate", "context", "io", "json", "fmt", "strings", "os", "url", "net", "flags", "server", "tls", "log", "time", "sync", "atomic", "signal", "strconv", "golangswaggerpaths", "yamlpc", "interpose", "cr", "cobra", "viper", "client", "models", "httptransport", "operations", "restapi", "path", "homedir", "bytes", "reader", "bufio", "multipart", "mime")
-var badTags = setOf("api", "models", "bool", "error", "string", "nil", "len", "new", "true", "false", "append", "make", "init", "main", "o", "restapi", "cli", "io", "os", "strconv", "context")
+var badTags = setOf("principal", "api", "models", "bool", "error", "string", "nil", "len", "new", "true", "false", "append", "make", "init", "main", "o", "restapi", "cli", "io", "os", "strconv", "context")
 var cliImports = setOf("json", "fmt", "swag", "cobra", "viper", "strfmt", "errors", "runtime", "client", "models", "httptransport", "os", "log", "path", "homedir")
 var rePlainIdent = regexp.MustCompile(`^[A-Za-z_][A-Za-z0-9_.\-]*$`)
 
@@ -144,6 +144,9 @@ func knownBad(kind, s string) string {
 		if strings.ContainsAny(s, "/~") {
 			return "pointer-escape-in-definition-name"
 		}
+		if strings.Contains(s, `"`) {
+			return "quote-in-name"
+		}
 		if modelMethods[k] {
 			return "definition-named-like-model-method"
 		}
@@ -190,7 +193,7 @@ func knownBad(kind, s string) string {
 		if !isASCII(s) {
 			return "non-ascii-parameter-name"
 		}
-		if clientParamMethods[k] || predeclared[strings.ToLower(s)] || templateImports[k] || goKeywords[s] {
+		if clientParamMethods[k] || predeclared[strings.ToLower(s)] || templateImports[k] || goKeywords[strings.ToLower(s)] {
 			return "parameter-named-like-template-identifier"
 		}
 		for _, r := range s {
